@@ -754,3 +754,10 @@ pub fn _hb_clear_substitution_flags(
 
     false
 }
+
+/// Verification hooks (compiled only with `--cfg rb_verif`).
+#[cfg(rb_verif)]
+#[allow(unused_imports, dead_code, missing_docs)]
+pub mod verif_hooks {
+    use super::*;
+}
